@@ -465,6 +465,9 @@ fn junk<T: Elem>(pat: u32, live: &[(u64, u64)], p: usize) -> MaybeUninit<T> {
         1 => T::raw(u64::MAX, u64::MAX),
         2 => T::raw(0x5A5A5A5A5A5A5A5A, 0x5A5A5A5A5A5A5A5A),
         3 => T::raw(1000000 + p as u64, 77),
+        // genuinely uninitialised memory: only meaningful under Miri, which
+        // reports any read of it as undefined behaviour
+        5 => MaybeUninit::uninit(),
         _ => {
             if live.is_empty() {
                 T::raw(0, 0)
